@@ -7,7 +7,7 @@ From Coq Require Import List NArith ZArith Bool Arith Lia.
 From Coq Require Import Init.Byte.
 From FFS Require Import Base.Res Base.Bytes Abi.Types Gen.AbiConsts AbiType.Syntax AbiType.Spec AbiType.Model
      AbiType.Abs AbiType.ProofsDec AbiType.ProofsArr AbiType.ProofsElem AbiType.ProofsLeaf AbiType.ProofsMain
-     Ffi.Model Ffi.Spec Ffi.Proofs.
+     Ffi.Model Ffi.Spec Ffi.SpecExact Ffi.Proofs.
 Import ListNotations.
 
 Definition model_ok (t : bytes) (tc : tcomp) : bool :=
@@ -78,11 +78,10 @@ Lemma eth_class_bytes s : eth_class_of (T "bytes" ++ s) = if ends_with_rbracket 
 Proof. unfold eth_class_of. destruct (ends_with_rbracket _); reflexivity. Qed.
 
 (* the class read off the text is the class of the parsed component *)
-Lemma class_of_parsed p tc :
-  parseABIParameterComponents (erase p) = Ok tc -> eth_class_of (fp_type p) = tc_class tc.
+Lemma class_of_spelling t Ty comps tc :
+  spelling t Ty comps -> tc_of t = Some tc -> eth_class_of Ty = tc_class tc.
 Proof.
-  intros H. destruct (validate_sound (erase p) tc H) as (t & _ & _ & Hsp & _ & Htc).
-  destruct p as [n Ty i x cs]. cbn [erase p_type p_comps fp_type] in *.
+  intros Hsp Htc.
   destruct t; cbn [spelling] in Hsp.
   - (* uint *) leaf_tc_in Htc. cbn [tc_class et_json class_of_json].
     destruct Hsp as [->|[_ ->]]; [|reflexivity]. cbn [canonical]. rewrite eth_class_uint, ends_rb_dec. reflexivity.
@@ -109,6 +108,14 @@ Proof.
     unfold eth_class_of. change (T "[]") with ([x5b] ++ [x5d]). rewrite !app_assoc, ends_rb_snoc. reflexivity.
   - (* tuple *) destruct Hsp as [-> _]. rewrite tc_of_tuple in Htc.
     destruct (tc_of_list l); [|discriminate]. injection Htc as <-. reflexivity.
+Qed.
+
+Lemma class_of_parsed p tc :
+  parseABIParameterComponents (erase p) = Ok tc -> eth_class_of (fp_type p) = tc_class tc.
+Proof.
+  intros H. destruct (validate_sound (erase p) tc H) as (t & _ & _ & Hsp & _ & Htc).
+  destruct p as [n Ty i x cs]. cbn [erase p_type p_comps fp_type] in *.
+  exact (class_of_spelling t Ty _ tc Hsp Htc).
 Qed.
 
 (* the implementation's test, on the class *)
@@ -162,18 +169,185 @@ Proof.
 Qed.
 
 
-(* a schema whose processing got past the JSON type check is not at odds with its details type *)
+(* a schema that got past the JSON type check against a component is not at odds with a type text
+   of that component's class *)
+Lemma valid_not_json_at_odds s tc Ty u :
+  inputTypeValidForTypeComponent s tc = Ok u -> eth_class_of Ty = tc_class tc -> json_at_odds s Ty = false.
+Proof.
+  intros H Ec. rewrite inputTypeValid_unfold in H.
+  destruct (model_ok (inputTypeString s) tc) eqn:M.
+  2:{ destruct (tc_string tc); cbn in H; discriminate. }
+  unfold json_at_odds.
+  destruct (declared_json_type s) as [jt|] eqn:D; [|reflexivity].
+  rewrite (declared_is_tested _ _ D) in M. apply model_ok_compatible in M.
+  rewrite Ec, M. reflexivity.
+Qed.
+
+(* ---------- the element descriptions of an array type ---------- *)
+Lemma eth_class_array Ty : eth_class_of Ty <> KArray -> ends_with_rbracket Ty = false.
+Proof. unfold eth_class_of. destruct (ends_with_rbracket Ty); congruence. Qed.
+
+Lemma drop_through_digits : forall ds r, Forall (fun b => is_digit b = true) ds ->
+  drop_through_lbracket (rev ds ++ x5b :: r) = r.
+Proof.
+  intros ds r H. apply Forall_rev in H. induction (rev ds) as [|b l IH]; cbn.
+  - reflexivity.
+  - inversion H as [|? ? Hb Hl]; subst.
+    replace (byte_eqb b x5b) with false; [apply IH; exact Hl|].
+    symmetry. destruct (byte_eqb_spec b x5b) as [->|]; [vm_compute in Hb; discriminate|reflexivity].
+Qed.
+
+Lemma strip_dim_fixed s' k : strip_dim (s' ++ T "[" ++ dec k ++ T "]") = s'.
+Proof.
+  unfold strip_dim. change (T "[") with [x5b]. change (T "]") with [x5d].
+  rewrite !rev_app_distr. cbn [rev app]. rewrite <- app_assoc. cbn [app].
+  rewrite drop_through_digits by apply dec_digits. apply rev_involutive.
+Qed.
+
+Lemma strip_dim_dyn s' : strip_dim (s' ++ T "[]") = s'.
+Proof.
+  unfold strip_dim. change (T "[]") with [x5b; x5d].
+  rewrite !rev_app_distr. cbn [rev app drop_through_lbracket].
+  replace (byte_eqb x5b x5b) with true by reflexivity. apply rev_involutive.
+Qed.
+
+Lemma ends_rb_fixed s' k : ends_with_rbracket (s' ++ T "[" ++ dec k ++ T "]") = true.
+Proof. change (T "]") with [x5d]. rewrite !app_assoc. apply ends_rb_snoc. Qed.
+Lemma ends_rb_dyn s' : ends_with_rbracket (s' ++ T "[]") = true.
+Proof. change (T "[]") with ([x5b] ++ [x5d]). rewrite !app_assoc. apply ends_rb_snoc. Qed.
+
+(* a component that is not an array: its type text has no dimension left *)
+Lemma not_array_class t tc :
+  tc_of t = Some tc ->
+  match t with TFixedArr _ _ | TDynArr _ => True | _ => tc_class tc <> KArray end.
+Proof.
+  intros Htc. destruct t; try exact I;
+    try (leaf_tc_in Htc; cbn [tc_class et_json class_of_json]; discriminate).
+  rewrite tc_of_tuple in Htc. destruct (tc_of_list l); [|discriminate]. injection Htc as <-. discriminate.
+Qed.
+
+Lemma elem_at_odds_unfold it t :
+  elem_at_odds it t = json_at_odds it t || elements_at_odds t (s_items it).
+Proof. destruct it; reflexivity. Qed.
+
+Lemma itemsValid_leaf tc items : tc_class tc <> KArray -> itemsValid items tc = Ok tt.
+Proof. destruct tc; cbn; congruence. Qed.
+
+(* a chain of element descriptions that got past the loop over the dimensions is not at odds *)
+Lemma itemsValid_not_at_odds : forall t Ty comps tc items,
+  spelling t Ty comps -> tc_of t = Some tc -> itemsValid items tc = Ok tt ->
+  elements_at_odds Ty items = false.
+Proof.
+  induction t; intros Ty comps tc items Hsp Htc H;
+    try (pose proof (class_of_spelling _ _ _ _ Hsp Htc) as Ec; pose proof (not_array_class _ _ Htc) as Na;
+         cbn beta iota in Na; unfold elements_at_odds; rewrite eth_class_array by congruence; reflexivity).
+  - (* T[k] *)
+    cbn [spelling] in Hsp. destruct Hsp as (s' & Hs' & ->). cbn [tc_of] in Htc.
+    destruct (tc_of t) as [c|] eqn:Ec; [|discriminate]. injection Htc as <-.
+    cbn [itemsValid] in H. destruct items as [it|]; [|discriminate].
+    destruct (inputTypeValidForTypeComponent it c) as [u| |] eqn:V; cbn [bind] in H; try discriminate.
+    unfold elements_at_odds. rewrite ends_rb_fixed, strip_dim_fixed, elem_at_odds_unfold.
+    rewrite (valid_not_json_at_odds _ _ _ _ V (class_of_spelling _ _ _ _ Hs' Ec)).
+    cbn [orb]. eapply IHt; eauto.
+  - (* T[] *)
+    cbn [spelling] in Hsp. destruct Hsp as (s' & Hs' & ->). cbn [tc_of] in Htc.
+    destruct (tc_of t) as [c|] eqn:Ec; [|discriminate]. injection Htc as <-.
+    cbn [itemsValid] in H. destruct items as [it|]; [|discriminate].
+    destruct (inputTypeValidForTypeComponent it c) as [u| |] eqn:V; cbn [bind] in H; try discriminate.
+    unfold elements_at_odds. rewrite ends_rb_dyn, strip_dim_dyn, elem_at_odds_unfold.
+    rewrite (valid_not_json_at_odds _ _ _ _ V (class_of_spelling _ _ _ _ Hs' Ec)).
+    cbn [orb]. eapply IHt; eauto.
+Qed.
+
+(* a schema whose processing got past the JSON type checks is not at odds with its details type *)
 Lemma finish_not_at_odds t o d pr it q r :
   finish (Schema t o (Some d) pr it) q = Ok r -> fp_type q = d_type d ->
   type_at_odds (Schema t o (Some d) pr it) = false.
 Proof.
   unfold finish. intros H Ety.
   destruct (parseABIParameterComponents (erase q)) as [tc| |] eqn:P; cbn [bind] in H; try discriminate.
-  rewrite inputTypeValid_unfold in H.
-  destruct (model_ok (inputTypeString (Schema t o (Some d) pr it)) tc) eqn:M.
-  2:{ destruct (tc_string tc); cbn in H; discriminate. }
-  unfold type_at_odds. cbn [s_details].
-  destruct (declared_json_type (Schema t o (Some d) pr it)) as [jt|] eqn:D; [|reflexivity].
-  rewrite (declared_is_tested _ _ D) in M. apply model_ok_compatible in M.
-  rewrite <- (class_of_parsed q tc P), Ety in M. rewrite M. reflexivity.
+  destruct (inputTypeValidForTypeComponent (Schema t o (Some d) pr it) tc) as [u| |] eqn:V; cbn [bind] in H; try discriminate.
+  cbn [s_items] in H.
+  destruct (itemsValid it tc) as [[]| |] eqn:IV; cbn [bind] in H; try discriminate.
+  unfold type_at_odds. cbn [s_details s_items].
+  rewrite (valid_not_json_at_odds _ _ (d_type d) _ V) by (rewrite <- Ety; apply class_of_parsed; exact P).
+  cbn [orb].
+  destruct (validate_sound (erase q) tc P) as (ty & _ & _ & Hsp & _ & Htc).
+  destruct q as [n Ty i x cs]. cbn [erase p_type p_comps fp_type] in *. subst Ty.
+  exact (itemsValid_not_at_odds ty _ _ tc it Hsp Htc IV).
+Qed.
+
+(* ---------- the JSON type test, from the class ---------- *)
+Lemma compatible_model_ok jt tc : json_compatible jt (tc_class tc) = true -> model_ok jt tc = true.
+Proof.
+  unfold model_ok, json_compatible.
+  change (str "string") with jsonStringType. change (str "boolean") with jsonBooleanType.
+  change (str "integer") with jsonIntegerType. change (str "number") with jsonNumberType.
+  change (str "array") with jsonArrayType. change (str "object") with jsonObjectType.
+  destruct (bytes_eqb_spec jt jsonStringType) as [->|_].
+  { replace (bytes_eqb jsonStringType jsonBooleanType) with false by reflexivity.
+    replace (bytes_eqb jsonStringType jsonIntegerType) with false by reflexivity.
+    replace (bytes_eqb jsonStringType jsonNumberType) with false by reflexivity.
+    destruct tc as [et ? ? ?| | |]; cbn; try discriminate. reflexivity. }
+  destruct (bytes_eqb_spec jt jsonBooleanType) as [->|_].
+  { destruct tc as [et ? ? ?| | |]; cbn; try discriminate. destruct (et_json et); cbn; congruence. }
+  destruct (bytes_eqb_spec jt jsonIntegerType) as [->|_].
+  { destruct tc as [et ? ? ?| | |]; cbn; try discriminate. destruct (et_json et); cbn; congruence. }
+  destruct (bytes_eqb_spec jt jsonNumberType) as [->|_].
+  { destruct tc as [et ? ? ?| | |]; cbn; try discriminate. destruct (et_json et); cbn; congruence. }
+  destruct (bytes_eqb_spec jt jsonArrayType) as [->|_].
+  { destruct tc as [et ? ? ?| | |]; cbn; try discriminate; try reflexivity. destruct (et_json et); discriminate. }
+  destruct (bytes_eqb_spec jt jsonObjectType) as [->|_].
+  { destruct tc as [et ? ? ?| | |]; cbn; try discriminate; try reflexivity. destruct (et_json et); discriminate. }
+  discriminate.
+Qed.
+
+
+(* ---------- the converse: declared and not at odds => past the checks ---------- *)
+Lemma json_ok_valid s tc Ty :
+  json_at_odds s Ty = false -> declared_json_type s <> None -> eth_class_of Ty = tc_class tc ->
+  inputTypeValidForTypeComponent s tc = Ok tt.
+Proof.
+  intros Odds Decl Ec. rewrite inputTypeValid_unfold. unfold json_at_odds in Odds.
+  destruct (declared_json_type s) as [jt|] eqn:D; [|congruence].
+  rewrite (declared_is_tested _ _ D). apply negb_false_iff in Odds. rewrite Ec in Odds.
+  rewrite (compatible_model_ok _ _ Odds). reflexivity.
+Qed.
+
+Lemma elems_declared_unfold it t :
+  elems_declared it t <-> declared_json_type it <> None /\ elements_declared t (s_items it).
+Proof. destruct it. reflexivity. Qed.
+
+Lemma elements_accept : forall t Ty comps tc items,
+  spelling t Ty comps -> tc_of t = Some tc ->
+  elements_at_odds Ty items = false -> elements_declared Ty items -> itemsValid items tc = Ok tt.
+Proof.
+  induction t; intros Ty comps tc items Hsp Htc Odds Decl;
+    try (pose proof (not_array_class _ _ Htc) as Na; cbn beta iota in Na; apply itemsValid_leaf; exact Na).
+  - cbn [spelling] in Hsp. destruct Hsp as (s' & Hs' & ->). cbn [tc_of] in Htc.
+    destruct (tc_of t) as [c|] eqn:Ec; [|discriminate]. injection Htc as <-.
+    unfold elements_at_odds in Odds. unfold elements_declared in Decl.
+    rewrite ends_rb_fixed, strip_dim_fixed in Odds. rewrite ends_rb_fixed, strip_dim_fixed in Decl.
+    destruct items as [it|]; [|discriminate]. rewrite elem_at_odds_unfold in Odds.
+    apply orb_false_iff in Odds as [O1 O2]. apply elems_declared_unfold in Decl. destruct Decl as [D1 D2].
+    cbn [itemsValid]. rewrite (json_ok_valid it c s' O1 D1 (class_of_spelling _ _ _ _ Hs' Ec)). cbn [bind].
+    eapply IHt; eauto.
+  - cbn [spelling] in Hsp. destruct Hsp as (s' & Hs' & ->). cbn [tc_of] in Htc.
+    destruct (tc_of t) as [c|] eqn:Ec; [|discriminate]. injection Htc as <-.
+    unfold elements_at_odds in Odds. unfold elements_declared in Decl.
+    rewrite ends_rb_dyn, strip_dim_dyn in Odds. rewrite ends_rb_dyn, strip_dim_dyn in Decl.
+    destruct items as [it|]; [|discriminate]. rewrite elem_at_odds_unfold in Odds.
+    apply orb_false_iff in Odds as [O1 O2]. apply elems_declared_unfold in Decl. destruct Decl as [D1 D2].
+    cbn [itemsValid]. rewrite (json_ok_valid it c s' O1 D1 (class_of_spelling _ _ _ _ Hs' Ec)). cbn [bind].
+    eapply IHt; eauto.
+Qed.
+
+Lemma elements_accept_parsed q tc items :
+  parseABIParameterComponents (erase q) = Ok tc ->
+  elements_at_odds (fp_type q) items = false -> elements_declared (fp_type q) items ->
+  itemsValid items tc = Ok tt.
+Proof.
+  intros P Odds Decl. destruct (validate_sound (erase q) tc P) as (ty & _ & _ & Hsp & _ & Htc).
+  destruct q as [n Ty i x cs]. cbn [erase p_type p_comps fp_type] in *.
+  exact (elements_accept ty Ty _ tc items Hsp Htc Odds Decl).
 Qed.
